@@ -238,13 +238,7 @@ class SimpleOperationExecutor:
             elif created_files.has_norm_cased_file(norm_cased_dir):
                 return False
 
-        if self._build_dirs.is_removed_norm_case(norm_cased_dir):
-            return False
-        elif os.path.isdir(norm_cased_dir):
-            self._build_dirs.handle_norm_cased_dir_exists(norm_cased_dir)
-            return True
-        else:
-            return False
+        return self._build_dirs.is_dir_norm_case(norm_cased_dir)
 
     def exists(self, filename, created_files=None):
         """Return whether the specified file exists.
